@@ -63,6 +63,11 @@ def real_run(prog, given, mode, select, entrypoint=None):
 def configs(rng, thorough):
     n = 700 if thorough else 150
     out = []
+    # hand-shaped configurations
+    f = IR.func("f", ["m", "n", "z"], ["n"])
+    g2 = IR.func("g", ["n", "m"], ["m"])            # same cycle parameters as f, listed in another order
+    out.append((IR.prog("top", [f, g2], max_iter=6), list(IR.UNSET), "cycle-same-params-other-order", "sync"))
+    out.append((IR.prog("top", [g2, f], max_iter=6), list(IR.UNSET), "cycle-same-params-other-order", "async"))
     tries = 0
     while len(out) < n and tries < 100000:
         tries += 1
@@ -71,7 +76,19 @@ def configs(rng, thorough):
             prog, _ = gen.random_flat(rng, n_nodes=(2, 5), cyclic=0.0, gate=0.3, multi_out=0.3, defaults=0.3, bound=0.0)
             subs = list(gen.convex_subsets(prog)) if not any(x["kind"] != "func" for x in prog["nodes"]) else []
             if subs and rng.random() < 0.5:
-                prog = gen.nest(prog, rng.choice(subs))
+                prog = gen.nest(prog, rng.choice(subs), inner_bound=None)
+                gn = [x for x in prog["nodes"] if x["kind"] == "graph"][0]
+                if rng.random() < 0.5:
+                    # bind an inner parameter inside the nested graph (it becomes optional outside)
+                    cand = [i for _, i in gn["inmap"]]
+                    if cand:
+                        b = rng.choice(cand)
+                        gn["sub"]["bound"] = [[b, f"bound.inner.{b}"]]
+                if len(gn["inputs"]) >= 2 and rng.random() < 0.6:
+                    # the wrapper exchanges two of its inputs in ONE with_inputs() call
+                    i1, i2 = rng.sample(range(len(gn["inmap"])), 2)
+                    gn["inmap"][i1][1], gn["inmap"][i2][1] = gn["inmap"][i2][1], gn["inmap"][i1][1]
+                    gn["pmap"] = [list(x) for x in gn["inmap"]]
             kind = "dag"
         else:
             prog, _ = gen.random_flat(rng, n_nodes=(2, 5), cyclic=0.5, gate=0.5, multi_out=0.2, defaults=0.25, bound=0.0, emit=0.15)
